@@ -363,3 +363,26 @@ reg(
     "annotations, user functions, signed literals as attribute values (rejection tolerated). Trusted base: the 40-line "
     "spelling table + readers in vf/checks/c25.py.",
 )
+
+reg(
+    "C18",
+    "E4-enum",
+    "exploration",
+    "bounded-exhaustive program enumeration, differential: expanded vs unexpanded CasADi model under the check's own renaming",
+    "Every program within <= 2 (quick) / 3 (thorough) feature deviations from a per-category base program (subject array x of "
+    "each category algebraic / state / input / parameter / constant; deviations over 17 shapes and paths -- 1-D n=1..3, 2-D up to "
+    "2x3, component arrays holding scalars and arrays, arrays in scalar components, two-level nesting --, start/min/max/nominal "
+    "in 12 forms (each / array literal / DM / MX / array parameter / component parameter / component-level modification), fixed, "
+    "value form, output, equation form (whole array, per element, rows and slices, for-loop, initial), der form, delay form "
+    "(whole array, inside a for-loop, one element), Integer, neighbours) is generated by the real backend without expand_vectors "
+    "and with it (expand_mx off and on). The expanded model must be the unexpanded one renamed by the check's own namer "
+    "(1-based indices at the path element that declares the dimension): groups in place and row-major, attribute element (i,j) on "
+    "scalar (i,j) (MX attributes evaluated as functions of the parameters at 2 grid points), outputs, delay states and delay "
+    "arguments, dae and initial residual entry by entry at grid points with a distinct value per element; an exception raised only "
+    "by the expansion is a violation. 7355 programs quick, 101231 thorough.",
+    "The unexpanded model is the reference for groups, attribute values and residuals (differential); programs the unexpanded "
+    "backend rejects are not judged (none in the final alphabet). Order inside outputs / delay_states, python_type of the scalars, "
+    "3-D+ arrays and the other simplification options are not covered; delay states are accepted as N[i] or N[i,1]. Values only on "
+    "the grid. Two defect families are reported under fixed signatures (inner-array / component-parameter attribute in a component "
+    "array), see known_findings / out/proposed.",
+)
